@@ -7,9 +7,13 @@ import LexVerif.Props.C05Number
 radices, `SlowFacts`. Here `SyntaxFacts` is **proved** from `Props.C05Number` (the radix-`r` versions of
 `number_exact_of_syntax` / `number_truncated_of_syntax`) for every class whose exponent base is the mantissa radix:
 
-* generic radices — `syntaxFacts_generic`, giving `C05_generic_main` (only `SlowFacts` is left);
-* power-of-two radices — `syntaxFacts_pow2`, giving `C05_pow2_main` (only the range of the exponent word, `ExpInRange`,
-  is left: `binary` is proved for `|exponent| ≤ 2^27`, and an explicit exponent of the input can exceed that).
+* generic radices — `syntaxFacts_generic`, giving `C05_generic_main` (only `SlowFacts` is left, and a 55-bit mantissa for
+  radix 31 with `f64`);
+* power-of-two radices, exponent base = radix **and the five mixed-base pairs** (`BasePair`; `Props.C05Number` carries the
+  scale factor `k = log radix / log base` of the implicit exponent) — `syntaxFacts_pow2`, giving `C05_pow2_main`,
+  **unconditional** for inputs shorter than `2^54` bytes: the exponent word is inside `ExpWide` (`±2^59`) by the syntax
+  layer, and `binary` is right there (`Proof.BinaryWide`: the saturating `calculate_power2` of /repo commit 220c4cc);
+* `C05_radix_full_partial`: both, with the remaining hypotheses listed.
 -/
 namespace LexVerif.Props.C05Syntax
 open LexVerif LexVerif.Spec LexVerif.Model LexVerif.Model.ParseFloatAlgo
@@ -397,6 +401,37 @@ theorem C05_pow2_main (feats : Features) (fmt : Format) (hpf : feats.powerOfTwo 
     (fun h => by
       have h' : fmt.mantissaRadix = 31 := h
       rw [h'] at hpw; unfold IsPow2 at hpw; omega)
+
+/-- **`C05_radix_full_partial`** — what is proved of `C05_radix_full`, with the remaining hypotheses listed. For every
+non-decimal radix class — power-of-two radices 2, 4, 8, 16, 32 of `power-of-two` builds with the exponent base equal to the
+radix or one of the five mixed pairs (`BasePair`), and the 29 generic radices of `radix` builds (`compact` or not) with
+exponent base = radix —, separator-free format classes of C12, `f32`/`f64`, complete and partial parser, inputs of bytes
+shorter than `2^54`: `parseFloatAlgoModel slowModel = parseFloatModel`.
+
+* power-of-two radices: **no remaining hypothesis**;
+* generic radices: `hslow` — per `Number` of the input, `SlowFacts`: what `slow_radix` (`digit_comp` for even, `byte_comp`
+  for odd radices) returns for the un-biased, invalid-marked Bellerophon estimate that brackets the value. Its content is
+  proved on the models (`Props.C01Slow.slow_radix_correct_full_proved`, `Props.C05Bytes.slow_radix_bytes_correct`) under
+  their domain conditions — `SlowDomain` (capacity of `BIGINT_LIMBS`, exponent range) resp. `FirstDigitFits` and no capacity
+  failure of the 18-limb `Bigfloat` — which are not derived from the input here;
+* radix 31, `f64`: `h31` — a truncated mantissa word of at least 55 bits (`31^11 ≈ 2^54.5`; the bracketing of an
+  invalid-marked estimate is proved from 55 bits for `f64`, from 54 for `f32`). -/
+theorem C05_radix_full_partial (feats : Features) (fmt : Format)
+    (R : (feats.powerOfTwo = true ∧ IsPow2 fmt.mantissaRadix ∧ ∃ k, BasePair fmt.mantissaRadix fmt.exponentBase k) ∨
+      GenericClass ⟨feats, fmt, false⟩)
+    (hfeat : feats.radix = true → feats.powerOfTwo = true)
+    (hclass : feats.format = false ∨ C12.SepPrefixFree fmt)
+    (o : POpts) {F : FTy} (hF : IsLemireFloat F) (isPartial : Bool) (s : List Nat)
+    (h256 : ∀ x ∈ s, x < 256) (hlen : s.length < 2 ^ 54)
+    (hslow : GenericClass ⟨feats, fmt, false⟩ → ∀ n cnt, parseFloatSyntax ⟨feats, fmt, false⟩ o isPartial s
+      (formatError feats fmt).isNone = .ok (.number n cnt) → SlowFacts slowModel ⟨feats, fmt, false⟩ F n)
+    (h31 : fmt.mantissaRadix = 31 → F = FTy.f64 → ∀ n cnt, parseFloatSyntax ⟨feats, fmt, false⟩ o isPartial s
+      (formatError feats fmt).isNone = .ok (.number n cnt) → n.manyDigits = true → 2 ^ 55 ≤ n.mantissa) :
+    parseFloatAlgoModel slowModel feats fmt o isPartial F s = parseFloatModel feats fmt o isPartial F.fmt s := by
+  rcases R with ⟨hpf, hpw, k, hpair⟩ | G
+  · exact C05_pow2_main feats fmt hpf hpw hpair hclass o hF isPartial s h256 hlen
+  · exact C05_generic_main feats fmt G hfeat hclass o hF isPartial s h256
+      (Nat.lt_of_lt_of_le hlen (Nat.pow_le_pow_right (by decide) (by decide))) h31 (hslow G)
 
 /-- non-vacuity: the hexadecimal format (exponent base 16) of a `power-of-two` build; the radix-3 format of a `radix` build -/
 example (s : List Nat) (h256 : ∀ x ∈ s, x < 256) (hlen : s.length < 2 ^ 54) :
